@@ -146,6 +146,83 @@ func (p *pkg) callsIn(fn string) []string {
 	return out
 }
 
+// funcDecl finds a function or method declaration by name.
+func (p *pkg) funcDecl(fn string) *ast.FuncDecl {
+	for _, f := range p.files {
+		for _, d := range f.Decls {
+			if fd, ok := d.(*ast.FuncDecl); ok && fd.Name.Name == fn && fd.Body != nil {
+				return fd
+			}
+		}
+	}
+	die("func %s not found", fn)
+	return nil
+}
+
+// mapKeysIn: string keys of composite literals of type `typ` and of `x["key"] = …` assignments in func fn.
+func (p *pkg) mapKeysIn(fn, typ string) []string {
+	var out []string
+	seen := map[string]bool{}
+	add := func(e ast.Expr) {
+		if bl, ok := e.(*ast.BasicLit); ok && bl.Kind == token.STRING {
+			s, _ := strconv.Unquote(bl.Value)
+			if !seen[s] {
+				seen[s] = true
+				out = append(out, s)
+			}
+		}
+	}
+	ast.Inspect(p.funcDecl(fn).Body, func(n ast.Node) bool {
+		switch v := n.(type) {
+		case *ast.CompositeLit:
+			if id, ok := v.Type.(*ast.Ident); ok && id.Name == typ {
+				for _, el := range v.Elts {
+					if kv, ok := el.(*ast.KeyValueExpr); ok {
+						add(kv.Key)
+					}
+				}
+			}
+		case *ast.AssignStmt:
+			for _, l := range v.Lhs {
+				if ix, ok := l.(*ast.IndexExpr); ok {
+					add(ix.Index)
+				}
+			}
+		}
+		return true
+	})
+	if len(out) == 0 {
+		die("no map keys found in %s", fn)
+	}
+	return out
+}
+
+// callArgAfter: in func fn, the call whose arguments contain the string literal `marker`; returns
+// the source text of its last argument (e.g. the default of urlConfig.Bool(..., "protectProtocol", true)).
+func (p *pkg) lastArgOfCallWith(fn, marker string) string {
+	res := ""
+	ast.Inspect(p.funcDecl(fn).Body, func(n ast.Node) bool {
+		c, ok := n.(*ast.CallExpr)
+		if !ok || len(c.Args) == 0 {
+			return true
+		}
+		for _, a := range c.Args {
+			if bl, ok := a.(*ast.BasicLit); ok && bl.Kind == token.STRING {
+				if s, _ := strconv.Unquote(bl.Value); s == marker {
+					if id, ok := c.Args[len(c.Args)-1].(*ast.Ident); ok {
+						res = id.Name
+					}
+				}
+			}
+		}
+		return true
+	})
+	if res == "" {
+		die("no call with %q in %s", marker, fn)
+	}
+	return res
+}
+
 func bytesLit(s string) string {
 	parts := make([]string, len(s))
 	for i := 0; i < len(s); i++ {
@@ -237,6 +314,18 @@ func main() {
 		calls := lfs.callsIn("DecodeFrom")
 		facts["DecodeFrom_calls"] = calls
 		return fmt.Sprintf("-- advisory: calls in DecodeFrom: %v", calls)
+	})
+	// ---- creds/creds.go (C17)
+	crd := safeLoad(filepath.Join(repo, "creds"))
+	emit("credProtectProtocolDefault", func() string {
+		v := crd.lastArgOfCallWith("GetCredentialHelper", "protectProtocol")
+		if v != "true" && v != "false" {
+			die("default of credential.protectProtocol is not a boolean literal: %s", v)
+		}
+		return "def credProtectProtocolDefault : Bool := " + v
+	})
+	emit("credInputKeys", func() string {
+		return "def credInputKeys : List Bytes := " + bytesList(crd.mapKeysIn("GetCredentialHelper", "Creds"))
 	})
 	out.WriteString("end Gen\n")
 	if err := os.WriteFile(os.Args[2], []byte(out.String()), 0o644); err != nil {
